@@ -445,6 +445,24 @@ func (w *world) datagrams(now, offset uint32, full bool) []dg {
 			rng.Read(p[80:])
 			add("padded", p)
 		}
+		// (vii') prefixes of a genuine report whose cut-off bytes are zero: a listener that
+		// zero-pads short datagrams would see the genuine report. The power is varied until the
+		// signature ends in 0x00 (expected 256 signings).
+		if s2, ok := freshSlot(); ok {
+			for p := uint64(2); p < 6000; p++ {
+				g := w.A.Report(s2, p)
+				gb := g.Bytes()
+				if gb[79] != 0 {
+					continue
+				}
+				add("truncated.zero_tail", gb[:79])
+				w.r.Count("ground.signature_ending_in_zero", 1)
+				if gb[78] == 0 {
+					add("truncated.zero_tail", gb[:78])
+				}
+				break
+			}
+		}
 		// (iii) re-signings
 		r := refenc.Report{ID: w.A.ID, Slot: s, Power: power()}
 		for name, k := range map[string]refenc.Key{"B": w.B.Key, "X": w.X.Key, "U": w.U.Key, "GCA": w.GCA, "temp": w.Temp, "server": w.Key} {
